@@ -88,6 +88,13 @@ func init() {
 		}
 		return m.callFn(f, args, nil)
 	}
+	harnessAPI["vfBackendSetSpecs"] = func(m *Machine, args []Value) Value {
+		f := m.Prog.Func("vfBackendSetSpecsFake")
+		if f == nil {
+			m.unsupported("vfBackendSetSpecsFake not defined by the harness")
+		}
+		return m.callFn(f, args, nil)
+	}
 	// larking.newResolver registers the real google.api descriptor files (protobuf-go globals): skipped.
 	reg("larking.io/larking.newResolver", func(m *Machine, fn *ssa.Function, args []Value) Value {
 		rt := fn.Signature.Results().At(0).Type()
